@@ -18,10 +18,30 @@ THEOREMS = [
     "IrVerif.Names.C15_monotone",
     "IrVerif.Names.C15_loop_terminates",
     "IrVerif.Names.C15_explicit_kept",
+    "IrVerif.Names.C15_namefix_total",
+    "IrVerif.Names.C15_namefix_post",
+    "IrVerif.Names.C15_namefix_keeps_unique",
+    "IrVerif.Names.C15_namefix_idempotent",
+    "IrVerif.Names.C15_namefix_call_total",
+    "IrVerif.Names.C15_namefix_call_post",
+    "IrVerif.Names.C15_namefix_call_keeps_unique",
+    "IrVerif.Names.C15_namefix_call_idempotent",
+    "IrVerif.Names.C15_rename_values_atomic",
 ]
 ASSUMPTIONS = [
-    "Python set membership / f-string decimal printing of int modelled by list membership / Nat.repr",
-    "only the default SimpleNameGenerator of NameFixPass is modelled",
+    "Python set/dict membership, dict insertion order and f-string decimal printing of int are modelled by list "
+    "membership, association lists and Nat.repr",
+    "only the default SimpleNameGenerator of NameFixPass is modelled (a custom NameGenerator is outside the model)",
+    "NameFixPass / rename_values theorems assume InitsOk (initializer dictionaries keyed by the current non-empty "
+    "names: kernel invariant I_key, property C01); post/keeps_unique/idempotent additionally assume the scoping rule "
+    "scopedB (a value is used only in the graph that first mentions it or in graphs nested in it afterwards), node "
+    "objects occurring once, and top-level graphs sharing no values (PassWF); the harness evaluates these hypotheses "
+    "on every generated model and reports the share",
+    "'nothing but names changed' is structural in the model (the object tree is an input only); on the real objects "
+    "it is checked by the oracle (identity snapshot of graphs, nodes, values, uses, attributes, backing tensors)",
+    "renaming the backing tensor (const_value.name) and values that have a producer and are registered as "
+    "initializers are not modelled (the first is checked by the oracle only)",
+    "TypeError paths of rename_values (non-Value / non-str arguments, length mismatch) are outside the typed model",
 ]
 
 OPS = ["Add", "Mul", "Add_1", ""]
@@ -32,29 +52,22 @@ NODE_POOL = [f"node_{op}_{k}" for op in ("Add", "Mul", "Add_1", "") for k in ran
 # --------------------------------------------------------------------------- part A
 
 
-class _Hist:
-    """One history on one graph: real objects + the mirrored primitive ops + oracle bookkeeping."""
+class _Exec:
+    """Executes a history *script* (pure data, replayable) on a real `ir.Graph`, mirrors every call the
+    graph makes on its NameAuthority as one primitive model op, and evaluates the oracle."""
 
-    def __init__(self, ctx, rng):
-        self.ctx, self.rng = ctx, rng
+    def __init__(self, ir):
+        self.ir = ir
         self.prim: list[list] = []  # model ops
-        self.after: list[str | None] = []  # real names right after each primitive call
-        self.desc: list = []  # readable history
+        self.after: list = []  # real names right after each primitive call
         self.known = {"v": set(), "n": set()}  # every name registered or assigned so far (oracle)
         self.oracle_failures: list[tuple[str, str]] = []
+        self.g = None
+        self.detached: list = []
 
-    # -- object creation
-    def pick_name(self, pool, p_none=0.5):
-        r = self.rng.random()
-        if r < p_none:
-            return None
-        return self.rng.choice(pool)
-
-    def new_node(self, ir):
-        op = self.rng.choice(OPS)
-        nout = self.rng.choice([0, 1, 1, 1, 2, 3])
-        outs = [ir.Value(name=self.pick_name(VAL_POOL)) for _ in range(nout)]
-        return ir.Node("", op, inputs=[], outputs=outs, name=self.pick_name(NODE_POOL))
+    def node(self, spec):
+        ir = self.ir
+        return ir.Node("", spec["op"], inputs=[], outputs=[ir.Value(name=n) for n in spec["outs"]], name=spec["name"])
 
     # -- mirror of `_set_node_graph_to_self_and_assign_names` for a list of nodes
     def before_add(self, nodes):
@@ -84,118 +97,168 @@ class _Hist:
                 self.known[kind].add(obj.name)
                 before[kind].add(obj.name)  # names handed out within one call must differ too
 
-
-def _one_history(ctx: Ctx, ir, size: int):
-    rng = ctx.rng
-    h = _Hist(ctx, rng)
-    n_in = rng.choice([0, 1, 2, 3])
-    inputs = [ir.Value(name=h.pick_name(VAL_POOL)) for _ in range(n_in)]
-    inits = [ir.Value(name=rng.choice([x for x in VAL_POOL if x])) for _ in range(rng.choice([0, 0, 1, 2]))]
-    if len({v.name for v in inits}) != len(inits):
-        inits = inits[:1]
-    nodes0 = [h.new_node(ir) for _ in range(rng.choice([0, 1, 2, 3]))]
-    snap = [("v", v, v.name, None) for v in inputs] + [("v", v, v.name, None) for v in inits] + h.before_add(nodes0)
-    g = ir.Graph(inputs, [], nodes=nodes0, initializers=inits, name="g")
-    h.after_add("Graph", snap)
-    h.desc.append(["Graph", [p for p in h.prim]])
-    detached: list = []
-    for _ in range(size):
-        live = list(g)
-        r = rng.random()
-        if r < 0.25:
-            n = h.new_node(ir)
-            snap = h.before_add([n])
+    def step(self, op):
+        ir, g = self.ir, self.g
+        kind = op[0]
+        if kind == "Graph":
+            _, in_names, init_names, node_specs = op
+            inputs = [ir.Value(name=n) for n in in_names]
+            inits = [ir.Value(name=n) for n in init_names]
+            nodes = [self.node(sp) for sp in node_specs]
+            snap = [("v", v, v.name, None) for v in inputs + inits] + self.before_add(nodes)
+            self.g = ir.Graph(inputs, [], nodes=nodes, initializers=inits, name="g")
+            self.after_add("Graph", snap)
+        elif kind == "append":
+            n = self.node(op[1])
+            snap = self.before_add([n])
             g.append(n)
-            h.after_add("append", snap)
-            h.desc.append(["append", n.op_type])
-        elif r < 0.4:
-            ns = [h.new_node(ir) for _ in range(rng.choice([0, 1, 2, 3]))]
-            snap = h.before_add(ns)
+            self.after_add("append", snap)
+        elif kind == "extend":
+            ns = [self.node(sp) for sp in op[1]]
+            snap = self.before_add(ns)
             g.extend(ns)
-            h.after_add("extend", snap)
-            h.desc.append(["extend", len(ns)])
-        elif r < 0.6 and live:
-            anchor = rng.choice(live)
-            ns = [h.new_node(ir) for _ in range(rng.choice([1, 1, 2]))]
-            arg = ns[0] if len(ns) == 1 and rng.random() < 0.5 else ns
-            snap = h.before_add(ns)
-            which = rng.choice(["insert_before", "insert_after"])
-            getattr(g, which)(anchor, arg)
-            h.after_add(which, snap)
-            h.desc.append([which, len(ns)])
-        elif r < 0.78 and live:
-            n = rng.choice(live)
+            self.after_add("extend", snap)
+        elif kind in ("insert_before", "insert_after"):
+            _, anchor, specs, single = op
+            ns = [self.node(sp) for sp in specs]
+            snap = self.before_add(ns)
+            getattr(g, kind)(list(g)[anchor], ns[0] if single else ns)
+            self.after_add(kind, snap)
+        elif kind == "remove":
+            n = list(g)[op[1]]
             g.remove(n)
-            detached.append(n)
-            h.desc.append(["remove", n.name])
-        elif r < 0.95 and detached:
-            n = detached.pop(rng.randrange(len(detached)))
-            if rng.random() < 0.3:  # rename while detached: the new explicit name is what gets registered
-                n.name = h.pick_name(NODE_POOL, 0.3)
-                for v in n.outputs:
-                    if rng.random() < 0.5:
-                        v.name = h.pick_name(VAL_POOL, 0.3)
-            snap = h.before_add([n])
-            which = rng.choice(["append", "extend", "insert_after"]) if list(g) else "append"
+            self.detached.append(n)
+        elif kind == "readd":
+            _, idx, rename, which, anchor = op
+            n = self.detached.pop(idx)
+            if rename is not None:  # rename while detached: the new explicit name is what gets registered
+                n.name = rename["name"]
+                for v, (do, nm) in zip(n.outputs, rename["outs"]):
+                    if do:
+                        v.name = nm
+            snap = self.before_add([n])
             if which == "append":
                 g.append(n)
             elif which == "extend":
                 g.extend([n])
             else:
-                g.insert_after(rng.choice(list(g)), n)
-            h.after_add("re-" + which, snap)
-            h.desc.append(["re-add", which])
-        else:  # re-adding a node that is already in the graph registers its names again
-            if live:
-                n = rng.choice(live)
-                snap = h.before_add([n])
-                g.append(n)
-                h.after_add("append-present", snap)
-                h.desc.append(["append-present"])
-    auth = g._name_authority  # observation only
-    impl = {
-        "names": h.after,
-        "vc": auth._value_counter,
-        "nc": auth._node_counter,
-        "vnames": sorted(auth._value_names),
-        "nnames": sorted(auth._node_names),
+                g.insert_after(list(g)[anchor], n)
+            self.after_add("re-" + which, snap)
+        elif kind == "append-present":  # re-adding a node that is already in the graph registers its names again
+            n = list(g)[op[1]]
+            snap = self.before_add([n])
+            g.append(n)
+            self.after_add("append-present", snap)
+        else:
+            raise ValueError(kind)
+
+    def impl(self):
+        auth = self.g._name_authority  # observation only
+        return {
+            "names": self.after,
+            "vc": auth._value_counter,
+            "nc": auth._node_counter,
+            "vnames": sorted(auth._value_names),
+            "nnames": sorted(auth._node_names),
+        }
+
+
+def _pick_name(rng, pool, p_none=0.5):
+    return None if rng.random() < p_none else rng.choice(pool)
+
+
+def _node_spec(rng):
+    return {"op": rng.choice(OPS), "name": _pick_name(rng, NODE_POOL),
+            "outs": [_pick_name(rng, VAL_POOL) for _ in range(rng.choice([0, 1, 1, 1, 2, 3]))]}
+
+
+def _one_history(ctx: Ctx, ir, size: int):
+    """generate a script step by step (choices depend on the sizes of the live / detached lists only)"""
+    rng = ctx.rng
+    ex = _Exec(ir)
+    script = []
+
+    def do(op):
+        script.append(op)
+        ex.step(op)
+
+    init_names = [rng.choice([x for x in VAL_POOL if x]) for _ in range(rng.choice([0, 0, 1, 2]))]
+    if len(set(init_names)) != len(init_names):
+        init_names = init_names[:1]
+    do(["Graph", [_pick_name(rng, VAL_POOL) for _ in range(rng.choice([0, 1, 2, 3]))], init_names,
+        [_node_spec(rng) for _ in range(rng.choice([0, 1, 2, 3]))]])
+    for _ in range(size):
+        live = len(ex.g)
+        r = rng.random()
+        if r < 0.25:
+            do(["append", _node_spec(rng)])
+        elif r < 0.4:
+            do(["extend", [_node_spec(rng) for _ in range(rng.choice([0, 1, 2, 3]))]])
+        elif r < 0.6 and live:
+            specs = [_node_spec(rng) for _ in range(rng.choice([1, 1, 2]))]
+            do([rng.choice(["insert_before", "insert_after"]), rng.randrange(live), specs,
+                len(specs) == 1 and rng.random() < 0.5])
+        elif r < 0.78 and live:
+            do(["remove", rng.randrange(live)])
+        elif r < 0.95 and ex.detached:
+            idx = rng.randrange(len(ex.detached))
+            rename = None
+            if rng.random() < 0.3:
+                rename = {"name": _pick_name(rng, NODE_POOL, 0.3),
+                          "outs": [[rng.random() < 0.5, _pick_name(rng, VAL_POOL, 0.3)] for _ in ex.detached[idx].outputs]}
+            which = rng.choice(["append", "extend", "insert_after"]) if live else "append"
+            do(["readd", idx, rename, which, rng.randrange(live) if live else 0])
+        elif live:
+            do(["append-present", rng.randrange(live)])
+    return ex, script
+
+
+def _check_authority_case(ctx, ex, script, out):
+    gen = sum(1 for p in ex.prim if p[1] is None)
+    shaped = sum(1 for p in ex.prim if p[1] is not None and (p[1].startswith("val_") or p[1].startswith("node_")))
+    case = {"part": "authority", "script": script}
+    ctx.case(
+        case,
+        nontrivial=gen > 0,
+        sample={"part": "authority", "script": script[:6], "prim": ex.prim[:12]},
+        part="authority",
+        prim_ops=min(len(ex.prim) // 8 * 8, 64),
+        generated=min(gen // 4 * 4, 32),
+        explicit_generated_shape=min(shaped // 4 * 4, 32),
+    )
+    for sig, what in ex.oracle_failures:
+        ctx.fail(sig, what, case)
+    impl = ex.impl()
+    model = {
+        "names": out.get("names"),
+        "vc": out.get("vc"),
+        "nc": out.get("nc"),
+        "vnames": sorted(out.get("vnames", [])),
+        "nnames": sorted(out.get("nnames", [])),
     }
-    return h, impl
+    if model != impl and not ex.oracle_failures:
+        ctx.disagree("names.hist model != Graph/NameAuthority", case, model, impl)
+
+
+def _replay_authority(ctx, ir, script):
+    ex = _Exec(ir)
+    for op in script:
+        ex.step(op)
+    out = lean_batch_parallel([{"m": "names.hist", "ops": ex.prim}])[0]
+    _check_authority_case(ctx, ex, script, out)
 
 
 def _run_authority(ctx: Ctx, ir) -> None:
-    reqs, impls, hists = [], [], []
+    for c in load_corpus("C15"):
+        if c.get("part") == "authority":
+            _replay_authority(ctx, ir, c["script"])
+    runs = []
     for i in range(ctx.pick(1500, 20000)):
         size = ctx.rng.choice([2, 4, 8, 16]) if i % 10 else 40
-        h, impl = _one_history(ctx, ir, size)
-        reqs.append({"m": "names.hist", "ops": h.prim})
-        impls.append(impl)
-        hists.append(h)
-    outs = lean_batch_parallel(reqs)
-    for h, impl, out in zip(hists, impls, outs):
-        gen = sum(1 for p in h.prim if p[1] is None)
-        shaped = sum(1 for p in h.prim if p[1] is not None and (p[1].startswith("val_") or p[1].startswith("node_")))
-        case = {"part": "authority", "ops": h.prim}
-        ctx.case(
-            case,
-            nontrivial=gen > 0,
-            sample={"part": "authority", "history": h.desc[:8], "prim": h.prim[:12]},
-            part="authority",
-            prim_ops=min(len(h.prim) // 8 * 8, 64),
-            generated=min(gen // 4 * 4, 32),
-            explicit_generated_shape=min(shaped // 4 * 4, 32),
-        )
-        for sig, what in h.oracle_failures:
-            ctx.fail(sig, what, case)
-        model = {
-            "names": out.get("names"),
-            "vc": out.get("vc"),
-            "nc": out.get("nc"),
-            "vnames": sorted(out.get("vnames", [])),
-            "nnames": sorted(out.get("nnames", [])),
-        }
-        if model != impl and not h.oracle_failures:
-            ctx.disagree("names.hist model != Graph/NameAuthority", case, model, impl)
+        runs.append(_one_history(ctx, ir, size))
+    outs = lean_batch_parallel([{"m": "names.hist", "ops": ex.prim} for ex, _ in runs])
+    for (ex, script), out in zip(runs, outs):
+        _check_authority_case(ctx, ex, script, out)
 
 
 # --------------------------------------------------------------------------- part B (NameFixPass)
@@ -307,7 +370,8 @@ class _Built:
         self.values = [ir.Value(name=f"__tmp_{i}") for i in range(nv)]
         for d in spec["dicts"]:
             for k, v in d:
-                self.values[v].name = k
+                # initializers carry a backing tensor whose name must follow the value's name
+                self.values[v] = ir.Value(name=k, const_value=ir.tensor([1.0], name=k))
         self.nodes = [None] * len(spec["nnames"])
         self.graphs = [None] * len(spec["dicts"])  # Graph or Function per gid
         tops = [self.build_graph(t) for t in spec["tops"]]
@@ -359,6 +423,9 @@ class _Built:
         return {"vnames": [v.name for v in self.values], "nnames": [n.name for n in self.nodes],
                 "initOf": init_of, "dicts": dicts}
 
+    def const_names_ok(self):
+        return all(v.const_value is None or v.const_value.name == v.name for v in self.values)
+
     def structure(self):
         """everything but names (identity-based), for 'nothing but names changed'"""
         ir = self.ir
@@ -381,7 +448,8 @@ class _Built:
         for v in self.values:
             p = v.producer()
             out.append(("value", None if p is None else nid[id(p)], v.index(), v.is_graph_input(), v.is_graph_output(),
-                        v.is_initializer(), gid.get(id(v.graph), None), sorted((nid[id(u)], k) for u, k in v.uses())))
+                        v.is_initializer(), gid.get(id(v.graph), None), sorted((nid[id(u)], k) for u, k in v.uses()),
+                        id(v.const_value)))
         return out
 
 
@@ -426,6 +494,28 @@ def _scope_lists(spec, dicts_now):
     return ok[0], lists, nodelists
 
 
+def _closed(spec):
+    """independent restatement of `Closed`: an initializer mentioned under a top-level graph belongs to a Graph
+    under that top-level graph"""
+    for t in spec["tops"]:
+        ment, graphs = set(), set()
+
+        def walk(g):
+            if g["isGraph"]:
+                graphs.add(g["g"])
+            ment.update(g["ins"] + g["outs"])
+            for n in g["nodes"]:
+                ment.update(v for v in n["ins"] + n["outs"] if v is not None)
+                for kind, x in n["attrs"]:
+                    for sub in [x] if kind == "g" else x:
+                        walk(sub)
+
+        walk(t)
+        if any(spec["initOf"][v] is not None and spec["initOf"][v] not in graphs for v in ment):
+            return False
+    return True
+
+
 def _truthy(x):
     return bool(x)
 
@@ -434,10 +524,13 @@ def _namefix_oracle(ctx, spec, before, after, struct_before, struct_after, raise
     """The postcondition of C15 on the real objects.  Returns the list of (signature, what)."""
     fails = []
     if raised is not None:
-        fails.append((f"NameFixPass:raises:{raised}", "the pass raised on a model whose initializers are keyed by their names"))
+        if _closed(spec):
+            fails.append((f"NameFixPass:raises:{raised}", "the pass raised on a model whose initializers are keyed by their names"))
         return fails, False
     if struct_before != struct_after:
         fails.append(("NameFixPass:structure-changed", "something other than names / initializer keys changed"))
+    if not after.pop("const_ok", True):
+        fails.append(("NameFixPass:const-tensor-name", "the backing tensor of a renamed initializer kept the old name"))
     scoped, lists, nodelists = _scope_lists(spec, after["dicts"])
     vn, nn = after["vnames"], after["nnames"]
     reach_v = sorted({v for L in lists for v in L})
@@ -488,6 +581,7 @@ def _run_one_fix(ir, spec):
     except Exception as e:  # noqa: BLE001
         raised = type(e).__name__
     after, struct_after = b.state(), b.structure()
+    after["const_ok"] = b.const_names_ok()
     if raised is None:
         try:
             m2 = bool(naming.NameFixPass()(b.model).modified)
@@ -518,6 +612,13 @@ def _check_fix_case(ctx, ir, spec, out, origin):
              inits=min(sum(len(d) for d in spec["dicts"]), 6))
     for sig, what in fails:
         ctx.fail(sig, what, case)
+    # the hypotheses of the Lean theorems (evaluated by the driver) against their Python restatement
+    if raised is None and (out.get("scoped") and out.get("disjoint")) != scoped:
+        ctx.disagree("scoping rule: scopedB/disjoint (Lean) != Python restatement", case,
+                     {"scoped": out.get("scoped"), "disjoint": out.get("disjoint")}, {"scoped": scoped})
+    if out.get("closed") != _closed(spec):
+        ctx.disagree("Closed (Lean) != Python restatement", case, out.get("closed"), _closed(spec))
+    ctx.count("namefix_PassWF=" + str(bool(out.get("scoped") and out.get("disjoint") and out.get("closed") and out.get("nodup"))))
     impl = {"vnames": after["vnames"], "nnames": after["nnames"], "dicts": after["dicts"], "initOf": after["initOf"],
             "modified": modified, "raised": raised is not None}
     model = {k: out.get(k) for k in ("vnames", "nnames", "dicts", "initOf", "modified", "raised")}
@@ -562,7 +663,8 @@ KINDS = ["plain", "init0", "init1", "input+init0"]
 
 def _rename_world(ir, kinds, names):
     """A real two-graph world: value i has kind kinds[i] and name names[i]."""
-    values = [ir.Value(name=n) for n in names]
+    values = [ir.Value(name=n) if k == "plain" else ir.Value(name=n, const_value=ir.tensor([1.0], name=n))
+              for n, k in zip(names, kinds)]
     plain = [v for v, k in zip(values, kinds) if k == "plain"]
     node = ir.Node("", "Op", [], outputs=plain, name="n")
     g0 = ir.Graph([v for v, k in zip(values, kinds) if k == "input+init0"], [], nodes=[node],
@@ -642,6 +744,8 @@ def _check_rename_case(ctx, ir, kinds, names, pairs, origin, out):
         for d0, d1 in zip(before["dicts"], after["dicts"]):
             if sorted(v for _, v in d0) != sorted(v for _, v in d1) or any(after["vnames"][v] != k for k, v in d1):
                 fails.append(("rename_values:initializer-key", "initializers not keyed by their names / a value lost"))
+        if any(v.const_value is not None and v.const_value.name != v.name for v in values):
+            fails.append(("rename_values:const-tensor-name", "the backing tensor of a renamed value kept the old name"))
     moved = sum(1 for a, b in zip(before["vnames"], after["vnames"]) if a != b)
     ctx.case(case, nontrivial=bool(pairs), part="rename", origin=origin, raised=raised is not None,
              n_values=len(kinds), n_pairs=min(len(pairs), 6), n_inits=sum(1 for k in kinds if k != "plain"),
@@ -690,6 +794,8 @@ def replay(ctx: Ctx, obj: dict) -> None:
     if isinstance(case, dict) and case.get("part") == "namefix":
         out = lean_batch_parallel([_fix_request(case["spec"])])[0]
         _check_fix_case(ctx, ir, case["spec"], out, "replay")
+    elif isinstance(case, dict) and case.get("part") == "authority":
+        _replay_authority(ctx, ir, case["script"])
     elif isinstance(case, dict) and case.get("part") == "rename":
         out = lean_batch_parallel([_rename_request(case["kinds"], case["names"], case["pairs"])])[0]
         _check_rename_case(ctx, ir, case["kinds"], case["names"], case["pairs"], "replay", out)
